@@ -261,12 +261,15 @@ Print Assumptions glue_history_collect_safe.
 
 (* non-vacuity: C17's example history (five allocations, 11 slots, GC_Hash = ptr >> 3) is admissible,
    its registry satisfies addr_ok, a heap over the five objects (plain struct, Tuple with a cycle, Array
-   of Ref, a self-referential unreachable object) satisfies wf and raw_wf; the concrete mark phase
-   and compaction loop reclaim exactly the two unreachable objects *)
+   of Ref, a self-referential unreachable object) satisfies wf and raw_wf; the concrete mark phase and
+   compaction loop keep the three reachable objects and reclaim none of them (stated independently of the
+   slot layout, so that tuning the prime table / load factor does not touch it) *)
 Example glue_hypotheses_inhabited :
   Gadm ex_hash ex_d false false glue_ops gc_init /\
   addr_ok (slots glue_g) /\ wf glue_heap (areg (slots glue_g)) nil /\ raw_wf glue_heap (areg (slots glue_g)) /\
   exists g1 l' rm,
     cmark ex_hash glue_heap (fuel_of glue_heap (areg (slots glue_g)) (aorder (slots glue_g))) nil glue_stack glue_g = Ok g1 /\
-    reclaimed_by_sweep g1 l' rm /\ map ptr rm = glue_reclaimed /\ map ptr (entries gentry l') = glue_kept.
+    reclaimed_by_sweep g1 l' rm /\
+    (forall p, In p glue_kept -> (exists e, Holds gentry l' e /\ ptr e = p) /\ ~ In p (map ptr rm)) /\
+    (forall x, In x rm -> ~ In (ptr x) glue_kept).
 Proof. exact GCGlue.glue_example. Qed.
